@@ -34,3 +34,4 @@ func verifCatch(f func()) (bool, string)
 func verifMentions(msg, s string) bool
 func verifIsOpaque(s string) bool
 func verifMarshalOf(s string, v interface{}) bool
+func verifAbstractFloat() float64
